@@ -697,6 +697,25 @@ func (x *Exec) trCall(env *Env, e ECall) Val {
 	case "streq":
 		as := args()
 		return Val{T: x.strEq(as[0].T, as[1].T), Ty: tyBool}
+	case "unchanged_below":
+		// unchanged_below("E!Str"): every array that existed before the call
+		// (address below the pre-state allocation frontier) has its old contents
+		s, ok := e.Args[0].(EStr)
+		if !ok {
+			env.fail("unchanged_below(\"heap\")")
+		}
+		es := heapElemSort(s.V)
+		cur := x.heap(env.st, s.V, es)
+		oldH, ok2 := env.oldState().heaps[s.V]
+		if !ok2 || cur.S == oldH.S {
+			return Val{T: True, Ty: tyBool}
+		}
+		pre := env.preNext
+		if pre.IsZero() {
+			x.declare("brk!", SInt)
+			pre = Term{"brk!", SInt}
+		}
+		return Val{T: Term{fmt.Sprintf("(forall ((a!u Int)) (! (=> (and (< 0 a!u) (< a!u %s)) (= (select %s a!u) (select %s a!u))) :pattern ((select %s a!u))))", pre.S, cur.S, oldH.S, cur.S), SBool}, Ty: tyBool}
 	case "sameheap":
 		// sameheap("E!Str"): the named heap is unchanged since the pre-state
 		s, ok := e.Args[0].(EStr)
